@@ -1,6 +1,7 @@
 import PiqpProofs.Basic
 import PiqpModel.Control
 import PiqpProofs.Properties.C14
+import PiqpProofs.Properties.C04
 
 /-!
 # C02 — well-posed problems are solved by every back end
@@ -61,4 +62,293 @@ theorem convex_dense_factorisation_succeeds (sqrtF : K → K) (hsq : ExactSqrt s
     (KKT.regFactor .dense st d k false (innerLLT sqrtF)).factOk = true :=
   dense_factorisation_never_fails sqrtF hsq st d k hc hP hρ hδ hw hl hu
 end factor
+end Piqp.C02
+
+/-!
+## … hence the loop never returns NUMERICS on a convex problem
+
+`loopG_never_numerics` is generic: an invariant of state and diagnostics that the loop's steps preserve and under which the
+factorisation following a rescaling succeeds excludes the three failure branches. `realOps_convInv` instantiates it for the
+real numeric operations with `ConvInv` (iterate strictly inside the cone — C08; KKT caches in agreement with the data — C13/C04;
+positive `ρ`, `δ` and regularisation floor), the success of the factorisation coming from the quasi-definiteness theorems of C14.
+-/
+
+set_option linter.unusedSectionVars false
+set_option linter.unusedSimpArgs false
+set_option linter.unusedVariables false
+namespace Piqp.C02
+section generic
+variable {K : Type}
+variable [Add K] [Sub K] [Mul K] [Div K] [Neg K] [Zero K] [One K] [LT K] [DecidableLT K] [LE K] [DecidableLE K] [BEq K]
+variable {σ : Type}
+
+/-- an invariant of state *and* diagnostics that every step of the loop preserves and under which the factorisation that
+    follows a rescaling always succeeds -/
+structure OpsInv (st : Settings K) (cs : Consts K) (ops : LoopOps K σ) (Inv : σ → Info K → Prop) : Prop where
+  head : ∀ b s i, Inv s i → Inv (ops.head b s i).1 (ops.head b s i).2
+  reg : ∀ s i, Inv s i → Inv (ops.reg s i) i
+  shift : ∀ s i, Inv s i → Inv (ops.shift s i).1 (ops.shift s i).2
+  finetune : ∀ s i, Inv s i → Inv s (finetuneSwitch st i)
+  rescale : ∀ b s i, Inv s i → (ops.factor b (ops.rescale s i)).2 = true ∧ Inv (ops.factor b (ops.rescale s i)).1 i
+  step : ∀ b s i (it : Nat), Inv s i →
+    let sn := ops.stepNum b s { i with iter := it, factorRetires := 0 }
+    let ru := if ops.hasIneq then regUpdateIneq st cs sn.2.1 sn.2.2.1 sn.2.1.mu sn.2.2.2.1 sn.2.2.2.2.1 sn.2.2.2.2.2.1 sn.2.2.2.2.2.2
+              else regUpdateEq cs sn.2.1 sn.2.2.2.1 sn.2.2.2.2.2.1
+    Inv (ops.applyFlags sn.1 ru.2.1 ru.2.2) ru.1
+
+omit [Neg K] [LE K] [DecidableLE K] in
+/-- under such an invariant the main loop never takes a factorisation-failure branch: it never returns NUMERICS -/
+theorem loopG_never_numerics (st : Settings K) (cs : Consts K) (ops : LoopOps K σ) (Inv : σ → Info K → Prop)
+    (ho : OpsInv st cs ops Inv) (c : Ctrl) (s : σ) (info : Info K) (h : Inv s info) :
+    (loopG st cs ops c s info).2 ≠ Status.numerics := by
+  fun_induction loopG st cs ops c s info
+  case case1 => simp
+  case case2 => simp
+  case case3 => simp
+  case case4 c s info hlt hi hterm s1 hp hd iter1 sh info2 s2 fa hfa sn info3 ru s4 ih =>
+    apply ih
+    have h1 := ho.head (c.iter == 0) s info h
+    have h2 := ho.reg _ _ h1
+    have h3 := ho.shift _ _ h2
+    have h4 := ho.finetune _ _ h3
+    have h5 := (ho.rescale c.refineOn _ _ h4).2
+    exact ho.step c.refineOn _ _ iter1 h5
+  case case5 c s info hlt hi hterm s1 hp hd iter1 sh info2 s2 fa hfa hr ih =>
+    have h1 := ho.head (c.iter == 0) s info h
+    have h2 := ho.reg _ _ h1
+    have h3 := ho.shift _ _ h2
+    have h4 := ho.finetune _ _ h3
+    exact absurd (ho.rescale c.refineOn _ _ h4).1 hfa
+  case case6 c s info hlt hi hterm s1 hp hd sh info2 s2 fa hfa hr hf ih =>
+    have h1 := ho.head (c.iter == 0) s info h
+    have h2 := ho.reg _ _ h1
+    have h3 := ho.shift _ _ h2
+    have h4 := ho.finetune _ _ h3
+    exact absurd (ho.rescale c.refineOn _ _ h4).1 hfa
+  case case7 c s info hlt hi hterm s1 hp hd iter1 sh info2 s2 fa hfa hr hf =>
+    have h1 := ho.head (c.iter == 0) s info h
+    have h2 := ho.reg _ _ h1
+    have h3 := ho.shift _ _ h2
+    have h4 := ho.finetune _ _ h3
+    exact absurd (ho.rescale c.refineOn _ _ h4).1 hfa
+  case case8 => simp
+end generic
+
+section real
+open Piqp.C14
+variable {K : Type} [Field K] [LinearOrder K] [IsStrictOrderedRing K] [Inhabited K]
+variable {n p m : Nat}
+
+theorem us_fields (be : Backend) (d : Data K n p m) (k : KKT K n p m) (rho delta : K)
+    (s : Vec K m) (s_lb s_ub : Vec K n) (z : Vec K m) (z_lb z_ub : Vec K n) :
+    let k' := KKT.updateScalings be d k rho delta s s_lb s_ub z z_lb z_ub
+    k'.rho = rho ∧ k'.delta = delta ∧ k'.s = s ∧ k'.zinv = (Vector.ofFn fun i => 1 / z[i]) ∧
+    k'.s_lb = d.lb.headUpd k.s_lb (fun i => s_lb[i]) ∧ k'.s_ub = d.ub.headUpd k.s_ub (fun i => s_ub[i]) ∧
+    k'.zinv_lb = d.lb.headUpd k.zinv_lb (fun i => 1 / z_lb[i]) ∧ k'.zinv_ub = d.ub.headUpd k.zinv_ub (fun i => 1 / z_ub[i]) := by
+  unfold KKT.updateScalings KKT.refresh
+  cases be <;> exact ⟨rfl, rfl, rfl, rfl, rfl, rfl, rfl, rfl⟩
+
+theorem vmax_ge_left (a b : K) : a ≤ vmax a b := by
+  unfold vmax; split
+  · rename_i h; exact le_of_lt h
+  · exact le_refl _
+
+theorem regUpdateIneq_pos (st : Settings K) (cs : Consts K) (i : Info K) (a b c d e f : K) (hl : 0 < i.regLimit) :
+    0 < (regUpdateIneq st cs i a b c d e f).1.rho ∧ 0 < (regUpdateIneq st cs i a b c d e f).1.delta ∧
+    (regUpdateIneq st cs i a b c d e f).1.regLimit = i.regLimit := by
+  unfold regUpdateIneq
+  simp only
+  refine ⟨?_, ?_, ?_⟩
+  · split <;> split <;> exact lt_of_lt_of_le hl (vmax_ge_left _ _)
+  · split <;> split <;> exact lt_of_lt_of_le hl (vmax_ge_left _ _)
+  · split <;> split <;> rfl
+
+theorem regUpdateEq_pos (cs : Consts K) (i : Info K) (a b : K) (hl : 0 < i.regLimit) :
+    0 < (regUpdateEq cs i a b).1.rho ∧ 0 < (regUpdateEq cs i a b).1.delta ∧ (regUpdateEq cs i a b).1.regLimit = i.regLimit := by
+  unfold regUpdateEq
+  simp only
+  refine ⟨?_, ?_, ?_⟩
+  · split <;> split <;> exact lt_of_lt_of_le hl (vmax_ge_left _ _)
+  · split <;> split <;> exact lt_of_lt_of_le hl (vmax_ge_left _ _)
+  · split <;> split <;> rfl
+
+/-- the loop invariant of the convex case: iterate strictly inside the cone, KKT caches in agreement with the data, positive
+    regularisation parameters and regularisation floor -/
+def ConvInv (e : Env K n p m) (s : NumState K n p m) (i : Info K) : Prop :=
+  C08.InCone e.data s.1 ∧ C13.CachesOk e.be e.data s.2 ∧ 0 < i.rho ∧ 0 < i.delta ∧ 0 < i.regLimit
+
+theorem finetuneSwitch_pos (st : Settings K) (i : Info K) (hft : 0 < st.regFinetuneLowerLimit) (h : 0 < i.regLimit) :
+    (finetuneSwitch st i).rho = i.rho ∧ (finetuneSwitch st i).delta = i.delta ∧ 0 < (finetuneSwitch st i).regLimit := by
+  unfold finetuneSwitch
+  simp only
+  split
+  · exact ⟨rfl, rfl, hft⟩
+  · exact ⟨rfl, rfl, h⟩
+
+/-- after `update_scalings` at an interior iterate with positive `ρ, δ`, a sparse back end's factorisation succeeds, with or
+    without the static regularisation of the refinement mode -/
+theorem factor_after_rescale (e : Env K n p m) (perm : Vector (Fin (n + p + m)) (n + p + m)) (hperm : IsPerm perm)
+    (hsp : e.be.isDense = false) (hin : e.inner = innerLDLT e.be perm)
+    (hP : ∀ x : Vec K n, 0 ≤ quad e.data.Psym x) (b : Bool) (s : NumState K n p m) (i : Info K) (h : ConvInv e s i) :
+    ((realOps e).factor b ((realOps e).rescale s i)).2 = true := by
+  obtain ⟨hcone, hcache, hρ, hδ, _⟩ := h
+  simp only [realOps, kktScal]
+  obtain ⟨hcoh, _⟩ := C13.updateScalings_coherent e.be e.data s.2 i.rho i.delta s.1.s s.1.s_lb s.1.s_ub s.1.z s.1.z_lb s.1.z_ub hcache
+  obtain ⟨f1, f2, f3, f4, f5, f6, f7, f8⟩ := us_fields e.be e.data s.2 i.rho i.delta s.1.s s.1.s_lb s.1.s_ub s.1.z s.1.z_lb s.1.z_ub
+  have hw : ∀ t : Fin m, 0 < (KKT.updateScalings e.be e.data s.2 i.rho i.delta s.1.s s.1.s_lb s.1.s_ub s.1.z s.1.z_lb s.1.z_ub).s[t] *
+      (KKT.updateScalings e.be e.data s.2 i.rho i.delta s.1.s s.1.s_lb s.1.s_ub s.1.z s.1.z_lb s.1.z_ub).zinv[t] +
+      (KKT.updateScalings e.be e.data s.2 i.rho i.delta s.1.s s.1.s_lb s.1.s_ub s.1.z s.1.z_lb s.1.z_ub).delta := by
+    intro t
+    rw [f2, f3, f4, C13.ofFn_get]
+    have := mul_pos (hcone.s t) (one_div_pos.mpr (hcone.z t))
+    linarith
+  have hl : ∀ a : Fin n, e.data.lb.act a → 0 < (KKT.updateScalings e.be e.data s.2 i.rho i.delta s.1.s s.1.s_lb s.1.s_ub s.1.z s.1.z_lb s.1.z_ub).zinv_lb[a] *
+      (KKT.updateScalings e.be e.data s.2 i.rho i.delta s.1.s s.1.s_lb s.1.s_ub s.1.z s.1.z_lb s.1.z_ub).s_lb[a] +
+      (KKT.updateScalings e.be e.data s.2 i.rho i.delta s.1.s s.1.s_lb s.1.s_ub s.1.z s.1.z_lb s.1.z_ub).delta := by
+    intro a ha
+    rw [f2, f5, f7, C13.headUpd_get, C13.headUpd_get]
+    simp only [ha, if_true]
+    have := mul_pos (one_div_pos.mpr (hcone.z_lb a ha)) (hcone.s_lb a ha)
+    linarith
+  have hu : ∀ a : Fin n, e.data.ub.act a → 0 < (KKT.updateScalings e.be e.data s.2 i.rho i.delta s.1.s s.1.s_lb s.1.s_ub s.1.z s.1.z_lb s.1.z_ub).zinv_ub[a] *
+      (KKT.updateScalings e.be e.data s.2 i.rho i.delta s.1.s s.1.s_lb s.1.s_ub s.1.z s.1.z_lb s.1.z_ub).s_ub[a] +
+      (KKT.updateScalings e.be e.data s.2 i.rho i.delta s.1.s s.1.s_lb s.1.s_ub s.1.z s.1.z_lb s.1.z_ub).delta := by
+    intro a ha
+    rw [f2, f6, f8, C13.headUpd_get, C13.headUpd_get]
+    simp only [ha, if_true]
+    have := mul_pos (one_div_pos.mpr (hcone.z_ub a ha)) (hcone.s_ub a ha)
+    linarith
+  rw [hin]
+  cases b
+  · exact sparse_factorisation_never_fails e.be e.st.kkt e.data _ perm hperm hcoh hP (by rw [f1]; exact hρ) (by rw [f2]; exact hδ) hw hl hu
+  · exact sparse_factorisation_never_fails_refine e.be hsp e.st.kkt e.data _ perm hperm hcoh hP (by rw [f1]; exact hρ) (by rw [f2]; exact hδ) hw hl hu
+
+theorem realOps_convInv (e : Env K n p m)
+    (hfac : ∀ (b : Bool) (s : NumState K n p m) (i : Info K), ConvInv e s i → ((realOps e).factor b ((realOps e).rescale s i)).2 = true)
+    (hτ0 : 0 < e.st.tau) (hτ1 : e.st.tau < 1) (heps : 0 ≤ e.cs.machEps) (hft : 0 < e.st.regFinetuneLowerLimit) :
+    OpsInv e.st e.cs (realOps e) (ConvInv e) where
+  head := by
+    intro b s i h
+    obtain ⟨h1, h2, h3, h4, h5⟩ := h
+    refine ⟨(C08.realOps_preserve_cone e hτ0 hτ1 heps).head b s i h1, (C04.realOps_preserve_caches e).head b s i h2, ?_, ?_, ?_⟩
+    all_goals (cases b <;> assumption)
+  reg := fun s i h => ⟨(C08.realOps_preserve_cone e hτ0 hτ1 heps).reg s i h.1, (C04.realOps_preserve_caches e).reg s i h.2.1, h.2.2⟩
+  shift := by
+    intro s i h
+    obtain ⟨h1, h2, h3, h4, h5⟩ := h
+    refine ⟨(C08.realOps_preserve_cone e hτ0 hτ1 heps).shift s i h1, (C04.realOps_preserve_caches e).shift s i h2, ?_, ?_, ?_⟩
+    all_goals (simp only [realOps, shiftOp]; split <;> assumption)
+  finetune := by
+    intro s i h
+    obtain ⟨h1, h2, h3, h4, h5⟩ := h
+    obtain ⟨f1, f2, f3⟩ := finetuneSwitch_pos e.st i hft h5
+    exact ⟨h1, h2, by rw [f1]; exact h3, by rw [f2]; exact h4, f3⟩
+  rescale := by
+    intro b s i h
+    refine ⟨hfac b s i h, ?_⟩
+    obtain ⟨h1, h2, h3⟩ := h
+    exact ⟨(C08.realOps_preserve_cone e hτ0 hτ1 heps).factor b _ ((C08.realOps_preserve_cone e hτ0 hτ1 heps).rescale s i h1),
+      (C04.realOps_preserve_caches e).factor b _ ((C04.realOps_preserve_caches e).rescale s i h2), h3⟩
+  step := by
+    intro b s i it h
+    obtain ⟨h1, h2, h3, h4, h5⟩ := h
+    simp only
+    have hc := (C08.realOps_preserve_cone e hτ0 hτ1 heps).stepNum b s { i with iter := it, factorRetires := 0 } h1
+    have hk := (C04.realOps_preserve_caches e).stepNum b s { i with iter := it, factorRetires := 0 } h2
+    have hreg : ((realOps e).stepNum b s { i with iter := it, factorRetires := 0 }).2.1.regLimit = i.regLimit := by
+      simp only [realOps, stepNumOp]; split <;> rfl
+    have hl : 0 < ((realOps e).stepNum b s { i with iter := it, factorRetires := 0 }).2.1.regLimit := by rw [hreg]; exact h5
+    refine ⟨(C08.realOps_preserve_cone e hτ0 hτ1 heps).applyFlags _ _ _ hc, (C04.realOps_preserve_caches e).applyFlags _ _ _ hk, ?_⟩
+    split
+    · obtain ⟨r1, r2, r3⟩ := regUpdateIneq_pos e.st e.cs _ _ _ _ _ _ _ hl
+      exact ⟨r1, r2, by rw [r3]; exact hl⟩
+    · obtain ⟨r1, r2, r3⟩ := regUpdateEq_pos e.cs _ _ _ hl
+      exact ⟨r1, r2, by rw [r3]; exact hl⟩
+
+/-- **C02 / C12: on a convex problem the solver never answers NUMERICS (exact arithmetic, sparse back ends).** If `P ⪰ 0`,
+    the loop starts strictly inside the cone with positive `ρ, δ` and regularisation floor (what `solve()` sets up), the step
+    fraction is in `(0,1)` and the fine-tuning floor is positive, then — for all four sparse formulations and every
+    fill-reducing permutation — every factorisation of the main loop succeeds and the loop ends with SOLVED, an
+    infeasibility verdict or MAX_ITER. -/
+theorem convex_never_numerics (e : Env K n p m) (perm : Vector (Fin (n + p + m)) (n + p + m)) (hperm : IsPerm perm)
+    (hsp : e.be.isDense = false) (hin : e.inner = innerLDLT e.be perm)
+    (hP : ∀ x : Vec K n, 0 ≤ quad e.data.Psym x)
+    (hτ0 : 0 < e.st.tau) (hτ1 : e.st.tau < 1) (heps : 0 ≤ e.cs.machEps) (hft : 0 < e.st.regFinetuneLowerLimit)
+    (ls : LoopState K n p m) (h : ConvInv e (ls.w, ls.kkt) ls.info) :
+    (mainLoop e ls).2 ≠ Status.numerics := by
+  unfold mainLoop
+  exact loopG_never_numerics e.st e.cs (realOps e) (ConvInv e)
+    (realOps_convInv e (factor_after_rescale e perm hperm hsp hin hP) hτ0 hτ1 heps hft) ls.c (ls.w, ls.kkt) ls.info h
+
+/-- dense back end: the factorised block stays positive definite under the static regularisation too -/
+theorem dense_factor_after_rescale (e : Env K n p m) (sqrtF : K → K) (hsq : ExactSqrt sqrtF)
+    (hd : e.be = .dense) (hin : e.inner = innerLLT sqrtF)
+    (hP : ∀ x : Vec K n, 0 ≤ quad e.data.Psym x) (b : Bool) (s : NumState K n p m) (i : Info K) (h : ConvInv e s i) :
+    ((realOps e).factor b ((realOps e).rescale s i)).2 = true := by
+  obtain ⟨hcone, hcache, hρ, hδ, _⟩ := h
+  simp only [realOps, kktScal]
+  obtain ⟨hcoh, _⟩ := C13.updateScalings_coherent e.be e.data s.2 i.rho i.delta s.1.s s.1.s_lb s.1.s_ub s.1.z s.1.z_lb s.1.z_ub hcache
+  obtain ⟨f1, f2, f3, f4, f5, f6, f7, f8⟩ := us_fields e.be e.data s.2 i.rho i.delta s.1.s s.1.s_lb s.1.s_ub s.1.z s.1.z_lb s.1.z_ub
+  generalize hk : KKT.updateScalings e.be e.data s.2 i.rho i.delta s.1.s s.1.s_lb s.1.s_ub s.1.z s.1.z_lb s.1.z_ub = k' at hcoh f1 f2 f3 f4 f5 f6 f7 f8 ⊢
+  have hw : ∀ t : Fin m, 0 < k'.s[t] * k'.zinv[t] + k'.delta := by
+    intro t
+    rw [f2, f3, f4, C13.ofFn_get]
+    have := mul_pos (hcone.s t) (one_div_pos.mpr (hcone.z t))
+    linarith
+  have hl : ∀ a : Fin n, e.data.lb.act a → 0 < k'.zinv_lb[a] * k'.s_lb[a] + k'.delta := by
+    intro a ha
+    rw [f2, f5, f7, C13.headUpd_get, C13.headUpd_get]
+    simp only [ha, if_true]
+    have := mul_pos (one_div_pos.mpr (hcone.z_lb a ha)) (hcone.s_lb a ha)
+    linarith
+  have hu : ∀ a : Fin n, e.data.ub.act a → 0 < k'.zinv_ub[a] * k'.s_ub[a] + k'.delta := by
+    intro a ha
+    rw [f2, f6, f8, C13.headUpd_get, C13.headUpd_get]
+    simp only [ha, if_true]
+    have := mul_pos (one_div_pos.mpr (hcone.z_ub a ha)) (hcone.s_ub a ha)
+    linarith
+  rw [hin]
+  rw [hd] at hcoh ⊢
+  cases b
+  · exact dense_factorisation_never_fails sqrtF hsq e.st.kkt e.data k' hcoh hP (by rw [f1]; exact hρ) (by rw [f2]; exact hδ) hw hl hu
+  · have hpd := coherent_xx_pd .dense e.data k' hcoh hP (by rw [f1]; exact hρ) (by rw [f2]; exact hδ) hw (boxTerm_nonneg e.data k' hl hu)
+    unfold KKT.regFactor KKT.factOk innerLLT
+    simp only [if_true, Backend.isDense]
+    have hq : QDef (fun _ : Fin n => true) (addDiag k'.k.xx (Vec.const n (vmax 0 (e.st.kkt.regEps + e.st.kkt.regRel *
+        maxFinHead (maxFinHead (maxFin (maxFin 0 n fun j => vabs e.data.P[j][j]) m fun i => k'.zinv[i] * k'.s[i]) e.data.lb.cnt n
+          fun i => k'.zinv_lb[i] * k'.s_lb[i]) e.data.ub.cnt n (fun i => k'.zinv_ub[i] * k'.s_ub[i]) - k'.rho)))) := by
+      refine ⟨?_, ?_, ?_⟩
+      · intro a c
+        simp only [addDiag, matOfFn_get']
+        by_cases hac : a = c
+        · subst hac; rfl
+        · have hca : ¬ c = a := fun e => hac e.symm
+          simp only [hac, hca, if_false]
+          exact coherent_xx_symm .dense e.data k' hcoh a c
+      · intro x _ hne
+        rw [quad_addDiag]
+        have h1 := hpd x hne
+        have h2 : 0 ≤ ∑ i : Fin n, x[i] * x[i] := Finset.sum_nonneg fun i _ => mul_self_nonneg _
+        have h3 := vmax_zero_nonneg (e.st.kkt.regEps + e.st.kkt.regRel *
+          maxFinHead (maxFinHead (maxFin (maxFin 0 n fun j => vabs e.data.P[j][j]) m fun i => k'.zinv[i] * k'.s[i]) e.data.lb.cnt n
+            fun i => k'.zinv_lb[i] * k'.s_lb[i]) e.data.ub.cnt n (fun i => k'.zinv_ub[i] * k'.s_ub[i]) - k'.rho)
+        nlinarith [mul_nonneg h3 h2]
+      · intro x hx hne
+        obtain ⟨j, hj⟩ := hne
+        exact absurd (hx j rfl) hj
+    obtain ⟨L, hL⟩ := pd_llt_ok sqrtF hsq n _ hq
+    simp only [hL]
+    rfl
+
+/-- the same for the dense back end (Cholesky), given an exact square root -/
+theorem convex_never_numerics_dense (e : Env K n p m) (sqrtF : K → K) (hsq : ExactSqrt sqrtF)
+    (hd : e.be = .dense) (hin : e.inner = innerLLT sqrtF)
+    (hP : ∀ x : Vec K n, 0 ≤ quad e.data.Psym x)
+    (hτ0 : 0 < e.st.tau) (hτ1 : e.st.tau < 1) (heps : 0 ≤ e.cs.machEps) (hft : 0 < e.st.regFinetuneLowerLimit)
+    (ls : LoopState K n p m) (h : ConvInv e (ls.w, ls.kkt) ls.info) :
+    (mainLoop e ls).2 ≠ Status.numerics := by
+  unfold mainLoop
+  exact loopG_never_numerics e.st e.cs (realOps e) (ConvInv e)
+    (realOps_convInv e (dense_factor_after_rescale e sqrtF hsq hd hin hP) hτ0 hτ1 heps hft) ls.c (ls.w, ls.kkt) ls.info h
+end real
 end Piqp.C02
